@@ -45,6 +45,9 @@ def check(ctx):
     from . import c09
     ctx.absorb(lambda sub: c09._alias_rule(sub, package(sub.tree)), "R4", only=lambda o: o.key.startswith("Species.alias"))
     ctx.floor("R4", "alias obligations", len([o for o in ctx.obs if o.rule == "R4"]), 2)
+    # R5: the balanced polynomials ARE what the compiled function returns: nothing else writes ydot or filters y (shared with C01.R9)
+    from .c01 import rhs_writers
+    rhs_writers(ctx, "R5")
 
 
 def _resolve(e, sets):
@@ -215,6 +218,7 @@ MUTANTS = [
     {"name": "electron-hash-name", "file": SPECIES, "old": '            hash("Electron")\n            if self.is_electron', "new": '            hash(self.name)\n            if self.is_electron', "rules": ["R3"]},
 ]
 MUTANTS += [
+    {"name": "cvode-fex-zeroes-exhausted", "file": "naunet/templates/cvode/src/naunet_fex.cpp.j2", "old": "#if ((NHEATPROCS || NCOOLPROCS) && NAUNET_DEBUG)\n    printf(\"Total heating/cooling rate", "new": "    for (int i = 0; i < NSPECIES; i++) {\n        if (y[i] <= 0.0 && ydot[i] < 0.0) ydot[i] = 0.0;\n    }\n#if ((NHEATPROCS || NCOOLPROCS) && NAUNET_DEBUG)\n    printf(\"Total heating/cooling rate", "rules": ["R5"]},
     {"name": "alias-strip-nonword", "file": SPECIES, "old": "        return self._alias\n\n    @alias.setter", "new": "        self._alias = re.sub(r'\\W', '', self._alias)\n        return self._alias\n\n    @alias.setter", "rules": ["R4"]},
     {"name": "alias-single-M", "file": SPECIES, "old": 'else "M" * abs(self.charge),', "new": 'else "M",', "rules": ["R4"]},
 ]
